@@ -609,3 +609,11 @@ def replay_body(pid, stream, ops, idx):
 
 STATEFUL = {"inst", "bmca", "fml", "c07", "master", "swrap", "view", "tlv", "timed", "filt", "loop", "exporter", "net", "forwarder"}
 SCENARIO_START = {"filt": ("FLT knew", "FLT bnew"), "loop": ("FLT knew", "FLT bnew"), "exporter": ("EXP new",), "net": ("N0 INIT",), "forwarder": ("FWD new",)}
+
+# theorems about source translated on every run that other properties also rest on: audited (and their module
+# built) by those properties' checks too, so a change to the translated function breaks an obligation there as well
+PROPS["C12"]["extra_theorem_modules"] = ["StatimeModel.Props.C08"]
+PROPS["C12"]["extra_theorems"] = ["Statime.C08.generated_receipt_timer_is_model", "Statime.C05.generated_port_move_is_model"]
+PROPS["C14"]["extra_theorem_modules"] = ["StatimeModel.Props.C05"]
+PROPS["C14"]["extra_theorems"] = ["Statime.C05.generated_port_move_is_model"]
+PROPS["C08"]["extra_theorems"] = ["Statime.C05.generated_port_move_is_model"]
